@@ -5,7 +5,9 @@
 
 1. in a scratch worktree of /repo: clean tree + demo passes; patched tree builds, the
    existing test suite passes, the demo fails
-2. apply the patch to /repo, run the quick checks of the given properties, undo
+2. run the quick checks of the given properties against the patched scratch worktree
+   (tools/check.py alternative-root mode, VERIF_ALT: /repo itself is never touched, so
+   several evaluations may run at the same time)
 3. store /verif/seeded/<seed_id>/{patch.diff, demo_test.go, meta.json}
 """
 import json, os, re, shutil, subprocess, sys, time
@@ -48,20 +50,27 @@ try:
     rc, o = sh("go test %s -count=1 -run '%s' ./%s/" % ("-race" if seed_id.startswith("C19") else "", run_re, pkgdir), cwd=wt)
     res["demo_on_mutant"] = "fail" if rc != 0 else "PASSES(not a mutant)"
     res["demo_on_mutant_tail"] = o[-500:]
-finally:
-    sh("git -C /repo worktree remove --force %s" % wt)
+except Exception as e:
+    res["exception"] = repr(e)
 confirmed = res.get("demo_on_clean") == "pass" and res.get("suite_on_mutant") == "pass" and res.get("demo_on_mutant") == "fail"
 res["confirmed"] = confirmed
-# run checks on /repo with the patch applied
+# run the checks against the patched worktree (alternative root), /repo untouched
 det = {}
-if confirmed:
-    rc, o = sh("git -C /repo status --porcelain")
-    assert o.strip() == "", "repo not clean: " + o
-    rc, o = sh("git -C /repo apply %s" % patch)
-    try:
+alt = "/tmp/seedalt_%s" % seed_id
+try:
+    if confirmed:
+        demo_in_wt = os.path.join(wt, pkgdir, "zz_demo_test.go")
+        if os.path.exists(demo_in_wt):
+            os.remove(demo_in_wt)
+        shutil.rmtree(alt, ignore_errors=True)
+        os.makedirs(alt)
+        os.symlink(wt, os.path.join(alt, "repo"))
+        env2 = dict(ENV, VERIF_ALT=alt)
         for p in props:
             t0 = time.time()
-            rc, o = sh("tools/check.py %s --tier quick" % p, cwd="/verif", timeout=3000)
+            pr = subprocess.run("tools/check.py %s --tier quick" % p, shell=True, cwd="/verif", env=env2,
+                                stdout=subprocess.PIPE, stderr=subprocess.STDOUT, timeout=3000)
+            rc, o = pr.returncode, pr.stdout.decode("utf-8", "replace")
             line = [l for l in o.splitlines() if l.startswith("VIOLATION")]
             det[p] = {"exit": rc, "violation_line": line[:1], "summary": [l for l in o.splitlines() if l.startswith(p + " tier")][:1], "wall": round(time.time() - t0)}
             if line:
@@ -74,8 +83,9 @@ if confirmed:
                         det[p]["detail"] = (v.get("detail") or "")[:300]
                     except Exception:
                         pass
-    finally:
-        sh("git -C /repo checkout -- .")
+finally:
+    sh("git -C /repo worktree remove --force %s" % wt)
+    shutil.rmtree(alt, ignore_errors=True)
 res["detection"] = det
 sd = "/verif/seeded/%s" % seed_id
 os.makedirs(sd, exist_ok=True)
